@@ -752,6 +752,21 @@ def neighbours(case):
                 yield c
 
 
+def run_driver(lines, procs: int = 1) -> list[str]:
+    """The Lean driver on the protocol lines; large batches are split over several driver processes
+    (the interpreter handles ~250 lines/s on this model)."""
+    if procs <= 1 or len(lines) < 400:
+        return common.run_lean_driver(PID, lines)
+    from concurrent.futures import ThreadPoolExecutor
+
+    size = max(200, -(-len(lines) // (procs * 2)))
+    chunks = [lines[i : i + size] for i in range(0, len(lines), size)]
+    common.run_lean_driver(PID, lines[:1])  # builds the model once, under the lake lock
+    with ThreadPoolExecutor(max_workers=procs) as ex:
+        parts = list(ex.map(lambda c: common.run_lean_driver(PID, c), chunks))
+    return [x for part in parts for x in part]
+
+
 def _graph_worker(cases):
     common.quiet_gemseo()
     out = []
@@ -790,7 +805,7 @@ def check_graph_cases(res: Result, cases, procs: int = 1, tag: str = "random") -
     if not cases:
         return
     lines = [graph_line(c) for c in cases]
-    model = common.run_lean_driver(PID, lines)
+    model = run_driver(lines, procs)
     impl = _pmap(_graph_worker, cases, procs)
     for case, line, m, (il, bad) in zip(cases, lines, model, impl):
         res.evaluations += 1
@@ -843,7 +858,7 @@ def check_chain_cases(res: Result, cases, procs: int = 1) -> None:
         return
     lines = [chain_line(c) for c in cases]
     ilines = [init_line(c) for c in cases if c["mode"] == "mdainit"]
-    model_all = common.run_lean_driver(PID, lines + ilines)
+    model_all = run_driver(lines + ilines, procs)
     model, imodel = model_all[: len(lines)], iter(model_all[len(lines) :])
     impl = _pmap(_chain_worker, cases, procs)
     for case, line, m, (il, bad, order) in zip(cases, lines, model, impl):
